@@ -184,6 +184,20 @@ fn c15_q_colname_overflow() {
     std::mem::forget(r);
 }
 
+/// a formula ending in a defined name: "B3*T" -> only B3 moves, the name stays (row offset symbolic)
+#[kani::proof]
+#[kani::unwind(5)]
+fn c15_q_trailing_name_dr_only() {
+    let dr: i64 = kani::any();
+    kani::assume(dr >= 0 && dr <= 2);
+    let got = replace_cell_names("B3*T", (dr, 0));
+    let mut e = TBuf::new();
+    e.ch(b'B');
+    e.ch(b'3' + dr as u8);
+    e.s(b"*T");
+    check(got, &e);
+}
+
 /// one offset dimension symbolic at a time (cheaper queries, same template)
 #[kani::proof]
 #[kani::unwind(5)]
